@@ -529,6 +529,7 @@ func main() {
 	translateMsmChunk(*repo, writeImp)
 	translateSerde(*repo, writeImp)
 	translateRecode(*repo, writeImp)
+	translatePrecompFull(*repo, writeImp)
 	fmt.Println("extract: ok")
 }
 
